@@ -30,6 +30,10 @@ Judge(e, c) ==
   IF e.ev = "Panic" THEN "panic"
   \* an index the term index never issued (the precondition of get_term is violated: "may panic"): safe code gets a panic, the default
   \* graph, or one of the index's own terms - anything else is memory the index does not own
+  \* a safe but inconsistent Term implementation (its lexical form changes between two reads): the index may file it under any of the
+  \* values it showed (or refuse it with a panic), but stays self-contained and holds nothing else
+  ELSE IF e.ev = "Adversary" THEN (IF ~e.audit THEN "not-self-contained"
+                                   ELSE IF \E i \in 1..Len(e.content) : \A j \in 1..Len(e.allowed) : e.content[i] # e.allowed[j] THEN "content" ELSE "ok")
   ELSE IF e.ev = "ForeignIndex" THEN (IF e.out.k \in {"panic", "own-term", "default-graph"} THEN "ok" ELSE "foreign-index-reads-foreign-memory")
   ELSE IF {e.obs[i].id : i \in 1..Len(e.obs)} # DOMAIN c THEN "live-set"
   ELSE IF \E i \in 1..Len(e.obs) : ~e.obs[i].audit THEN "not-self-contained"
